@@ -761,4 +761,7 @@ def run(P, R, tier):
     # every complete line that was read is dispatched in this wake-up: none dropped, none left waiting for unrelated traffic
     from . import c03 as _c03
     _c03.reader_drains(P, R, 'C08.MPT.5')
+    # shared (round 9): junk ids are looked up too - a comparator that overflows on them loses live requests
+    from . import c19 as _c19
+    _c19.comparators(P, R, 'C08.ARITH.1')
     return EXPLANATION, ASSUMPTIONS
